@@ -145,6 +145,9 @@ def check_writer(model: Model, report: Report, rule_w: str, rule_rt: str) -> Non
         report.ok(rule_w, fn.qualname, "writer table = RFC normalized-path name for every class and special pair", detail={"chain": chain.show(), "strings": len(tests)})
     # reader o writer
     dm = _strings.extract_decoder(model)
+    for part, k, msg, dfn in dm.problems:
+        if k.endswith(":rejected") or k.endswith("pair-rejected") or k.endswith(":raises"):
+            report.fail(rule_rt, dfn.qualname, f"reader:{k}", f"the reader refuses text the writer can produce: {msg}", file=dfn.file, line=dfn.line)
     nchain, why2 = c09.normalisation_chain(model, "SINGLE_QUOTE_STRING")
     if nchain is None:
         report.undecided(rule_rt, "parse.Parser._decode_string_literal", f"{why2}")
